@@ -88,6 +88,9 @@ func runRoute(route int, src string) (out outcome) {
 
 func implC01(line string) string {
 	f := strings.Fields(line)
+	if len(f) == 3 && f[0] == "fn" {
+		return implFn(f[2])
+	}
 	if len(f) != 4 {
 		return "bad-op"
 	}
@@ -106,6 +109,7 @@ func implC01(line string) string {
 }
 
 func genC01(c *h.Ctx) {
+	genFn(c)
 	n := c.N(3000, 120000)
 	for i := 0; i < n; i++ {
 		size := 8 + c.Rng.Intn(c.N(30, 80))
@@ -113,4 +117,80 @@ func genC01(c *h.Ctx) {
 		c.Add("trace 5000 "+vars+" "+prog, "trace")
 		c.Add("value 5000 "+vars+" "+prog, "value")
 	}
+}
+
+func implFn(prog string) string {
+	src := mujs.RenderFnJS(prog)
+	var first string
+	for route := 0; route < 2; route++ {
+		var logged []string
+		vm := otto.New()
+		vm.Set("log", func(call otto.FunctionCall) otto.Value {
+			logged = append(logged, fnTok(call.Argument(0)))
+			return call.Argument(0)
+		})
+		var v otto.Value
+		var err error
+		if route == 0 {
+			v, err = vm.Run(src)
+		} else {
+			var s *otto.Script
+			s, err = vm.Compile("", src)
+			if err == nil {
+				// a Script run on another runtime first must not change what it does here
+				o2 := otto.New()
+				o2.Set("log", func(call otto.FunctionCall) otto.Value { return call.Argument(0) })
+				o2.Run(s)
+				v, err = vm.Run(s)
+			}
+		}
+		t := "t:[" + strings.Join(logged, ",") + "];"
+		var out string
+		if err != nil {
+			msg := err.Error()
+			switch {
+			case strings.HasPrefix(msg, "ReferenceError"):
+				out = t + "k:throw:err:ReferenceError"
+			case strings.HasPrefix(msg, "TypeError"):
+				out = t + "k:throw:err:TypeError"
+			case strings.HasPrefix(msg, "RangeError"):
+				out = t + "k:throw:err:RangeError"
+			case strings.HasPrefix(msg, "SyntaxError"), strings.HasPrefix(msg, "(anonymous)"):
+				out = t + "k:syntaxerror:" + strings.ReplaceAll(msg, " ", "_")
+			default:
+				if n, e2 := strconv.ParseInt(msg, 10, 64); e2 == nil {
+					out = t + fmt.Sprintf("k:throw:n%d", n)
+				} else {
+					out = t + "k:throw:s" + strings.ReplaceAll(msg, " ", "_")
+				}
+			}
+		} else {
+			out = t + "k:normal:" + fnTok(v)
+		}
+		if route == 0 {
+			first = out
+		} else if out != first {
+			return "routes-differ:source=" + first + ";script-reused=" + out
+		}
+	}
+	return first
+}
+
+func fnTok(v otto.Value) string {
+	switch {
+	case v.IsNumber() && v.IsNaN():
+		return "nan"
+	case v.IsFunction():
+		return "fn"
+	case v.IsObject():
+		switch v.Class() {
+		case "Error":
+			n, _ := v.Object().Get("name")
+			return "err:" + n.String()
+		case "Arguments":
+			return "args"
+		}
+		return "obj"
+	}
+	return mujs.Tok(v)
 }
